@@ -14,12 +14,12 @@ use serde::{Deserialize, Serialize};
 use vf_core::{pick_index, CheckResult, Fail, Obs, Run, SubCheck, Tier, X};
 use vf_repo::{from_el, to_el, El, Field, FA};
 use winter_air::proof::Proof;
-use winter_crypto::{DefaultRandomCoin, ElementHasher};
+use winter_crypto::{DefaultRandomCoin, Digest, ElementHasher};
 use winter_math::fields::{CubeExtension, QuadExtension};
 use winter_math::{FieldElement, StarkField};
 use winter_utils::Serializable;
 
-use crate::c04::{derive_spec, replay};
+use crate::c04::{derive_spec, replay, SpecOp};
 use crate::coin::Event;
 use crate::common::*;
 use crate::desc::Desc;
@@ -63,6 +63,72 @@ fn positions_of<B: FA, H: ElementHasher<BaseField = B>>(proof: &Proof, desc: &Ar
     }
 }
 
+fn ref_kind<H>() -> Option<vf_ref::hashes::Kind> {
+    use vf_ref::hashes::Kind;
+    let n = std::any::type_name::<H>();
+    [("RpJive64_256", Kind::RpJive64_256), ("Rp64_256", Kind::Rp64_256), ("Rp62_248", Kind::Rp62_248), ("Blake3_256", Kind::Blake3_256), ("Blake3_192", Kind::Blake3_192), ("Sha3_256", Kind::Sha3_256)]
+        .iter()
+        .find(|(s, _)| n.contains(s))
+        .map(|(_, k)| *k)
+}
+
+/// inverse of RefH::as_bytes32
+fn digest_to_ref(h: &vf_ref::hashes::RefH, b: &[u8; 32]) -> vf_ref::hashes::Dg {
+    use vf_ref::hashes::Dg;
+    if h.is_rescue() {
+        let bits = h.fp.bits as usize;
+        let mut e = [0u128; 4];
+        for (k, v) in e.iter_mut().enumerate() {
+            for i in 0..bits {
+                let pos = k * bits + i;
+                if (b[pos / 8] >> (pos % 8)) & 1 == 1 {
+                    *v |= 1 << i;
+                }
+            }
+        }
+        Dg::Elems(e)
+    } else {
+        Dg::Bytes(b[..h.digest_bytes()].to_vec())
+    }
+}
+
+/// Query positions and proof-of-work measure of the proof's nonce by the harness' own definition of the
+/// public coin and of the hash functions (vf-ref; nothing of /repo's hashing is executed): decides whether
+/// a proof that differs from an accepted one in its nonce only is a legitimate proof by the documented
+/// transcript (same positions, grinding condition met) or an accepted alteration.
+fn ref_positions_of<B: FA, H: ElementHasher<BaseField = B>>(proof: &Proof, desc: &Arc<Desc>, ext: u8) -> Option<(Vec<usize>, u32)> {
+    use vf_ref::coin::RefCoin;
+    let spec = match ext {
+        1 => derive_spec::<B, H, B>(proof, desc).ok()?.0,
+        2 => derive_spec::<B, H, QuadExtension<B>>(proof, desc).ok()?.0,
+        _ => derive_spec::<B, H, CubeExtension<B>>(proof, desc).ok()?.0,
+    };
+    let h = vf_ref::hashes::RefH::new(ref_kind::<H>()?, B::FP);
+    let mut coin: Option<RefCoin> = None;
+    let mut pow = 0u32;
+    let mut positions = None;
+    for op in &spec {
+        match op {
+            SpecOp::New(seed) => coin = Some(RefCoin::new(h.clone(), &seed.iter().map(|e| e.to_u128()).collect::<Vec<_>>())),
+            SpecOp::Reseed(d) => coin.as_mut()?.reseed(&digest_to_ref(&h, &d.as_bytes())),
+            SpecOp::Draw(deg) => {
+                coin.as_mut()?.draw(*deg).ok()?;
+            },
+            SpecOp::Pow(nonce) => pow = coin.as_ref()?.pow_measure(*nonce),
+            SpecOp::Ints(n, d, nonce) => {
+                if !d.is_power_of_two() || *n >= *d {
+                    return None;
+                }
+                let mut p: Vec<usize> = coin.as_mut()?.draw_integers(*n, *d as u64, *nonce).into_iter().map(|x| x as usize).collect();
+                p.sort_unstable();
+                p.dedup();
+                positions = Some(p);
+            },
+        }
+    }
+    positions.map(|p| (p, pow))
+}
+
 pub fn baseline<B: FA, H: ElementHasher<BaseField = B> + Send + Sync>(shape: &Shape, cell_budget: usize) -> Result<Option<Baseline>, Fail> {
     let inst = realize::<B>(shape, cell_budget);
     if inst.weak_seed_binding() {
@@ -82,6 +148,15 @@ pub fn baseline<B: FA, H: ElementHasher<BaseField = B> + Send + Sync>(shape: &Sh
     let bytes = proof.to_bytes();
     let fields = dissect(&bytes).ok_or_else(|| Fail::new("harness/dissect", "an honest proof does not follow the layout the dissector walks"))?;
     let positions = positions_of::<B, H>(&proof, &desc, inst.opts.ext).ok_or_else(|| Fail::new("harness/positions", "cannot replay the transcript of an honest proof"))?.0;
+    match ref_positions_of::<B, H>(&proof, &desc, inst.opts.ext) {
+        Some((p, pow)) if p == positions && pow >= inst.opts.grinding => {},
+        other => {
+            return Err(Fail::new(
+                "reference-transcript/positions",
+                format!("the query positions / proof-of-work of an honest accepted proof differ from the documented transcript computed with the reference hash functions: reference {other:?}, library {positions:?}"),
+            ))
+        },
+    }
     if positions.len() != proof.num_unique_queries as usize {
         return Err(Fail::new("harness/positions", "replayed query positions do not match num_unique_queries"));
     }
@@ -160,7 +235,7 @@ pub fn judge<B: FA, H: ElementHasher<BaseField = B>>(base: &Baseline, mutated: &
             if only_nonce {
                 // a different nonce that satisfies the proof-of-work condition and leads to the very
                 // same query positions is a legitimate proof of the same statement
-                if let Some((pos, pow)) = positions_of::<B, H>(&parsed, &base.desc, base.opts.ext) {
+                if let Some((pos, pow)) = ref_positions_of::<B, H>(&parsed, &base.desc, base.opts.ext) {
                     if pos == base.positions && pow >= base.opts.grinding {
                         return Verdict::ExcludedNonce;
                     }
